@@ -17,7 +17,7 @@ def _ask(lines):
 
 
 def run(tier, seed):
-    runner.build("san")
+    runner.build("san", targets=["libdrv"])
     ck = Check("C17", tier, seed,
                "grid of (function, alpha, dof); class = (function, dof bucket, alpha decade); "
                "non-trivial = value compared against scipy quantile or a shape relation evaluated")
